@@ -369,8 +369,20 @@ def m_splitext(ex, st, args, kwargs, node):
     return [(st, VTuple([VStr(r), VStr(e)]))]
 
 
+STRIPS = z3.Function("strip_slashes", S, S)            # s.strip("/")
+
+
+def m_strip(ex, st, args, kwargs, node):
+    s0 = args[0]
+    if len(args) == 2 and isinstance(args[1], VStr) and args[1].const() == "/":
+        c = s0.const()
+        return [(st, VStr(c.strip("/")) if c is not None else VStr(STRIPS(s0.t)))]
+    return [(st, VStr(z3.String(fresh_name("strip"))))]
+
+
 def install_string_models(reg):
     reg.ext_models["os.path.splitext"] = m_splitext
+    reg.ext_models["str.strip"] = m_strip
     reg.ext_models["str.lower"] = m_lower
     reg.ext_models["str.split"] = m_split
     reg.ext_models["str.ljust"] = m_ljust
@@ -842,8 +854,58 @@ def parse_returns(c):
     return [(z3.Not(SEM_OK(s)), NONE), (SEM_OK(s), parsed(s))]
 
 
+# ---- which folders a filter searches (FileFilter.get_target_folders) ----------------------------------------
+P_FILTER_T = p_obj("FileFilter", {
+    "created_after": p_unk(), "created_before": p_unk(), "modified_after": p_unk(), "modified_before": p_unk(),
+    "folder_paths": p_seq_str("folder_paths"), "path_patterns": p_unk(), "extensions": p_unk()})
+
+
+def covers(t, p):
+    """Statement ("every matching file ... of the requested folders"): walking target t also lists the files of the
+    requested folder p iff p is t or lies below t -- compared component-wise, i.e. at a '/' boundary."""
+    a, b = STRIPS(p), STRIPS(t)
+    return z3.Or(a == b, b == sv(""), z3.PrefixOf(z3.Concat(b, sv("/")), a))
+
+
+def str_view(st, v):
+    """(length, elem(j) -> String term) of a list of strings of symbolic length."""
+    if isinstance(v, VSeq):
+        probe = v.elem(z3.Int("probe!view"))
+        if isinstance(probe, VStr):
+            return v.length, (lambda j: v.elem(j).t)
+    raise ops.Unsupported("result of get_target_folders is not a symbolic list of strings")
+
+
+def targets_clauses(c):
+    q = fields(c, "self")["folder_paths"]
+    nq, qa = q.length, (lambda j: q.elem(j).t)
+    nr, ra = str_view(c.st, c.result)
+    i, j, k = z3.Int(fresh_name("i!t")), z3.Int(fresh_name("j!t")), z3.Int(fresh_name("k!t"))
+
+    def rng(x, n):
+        return z3.And(x >= 0, x < n)
+    e1 = z3.ForAll([j], z3.Implies(rng(j, nr), z3.Exists([i], z3.And(rng(i, nq), ra(j) == qa(i)))))
+    e2 = z3.ForAll([i], z3.Implies(rng(i, nq), z3.Exists([j], z3.And(rng(j, nr), covers(ra(j), qa(i))))))
+
+    def disjoint(n, at):
+        return z3.ForAll([i, k], z3.Implies(z3.And(rng(i, n), rng(k, n), i != k), z3.Not(covers(at(i), at(k)))))
+    e3 = z3.Implies(disjoint(nq, qa), disjoint(nr, ra))
+    return e1, e2, e3
+
+
 def part_a(reg):
     out = []
+    out.append(FnContract(
+        target=f"{CLIENT}::FileFilter.get_target_folders",
+        params=[("self", P_FILTER_T)],
+        ensures=[("every-target-is-a-requested-folder-path", body_only(lambda c: targets_clauses(c)[0])),
+                 ("every-requested-folder-is-covered-by-a-target-(component-wise)", body_only(lambda c: targets_clauses(c)[1])),
+                 ("targets-do-not-overlap-when-the-requested-folders-do-not", body_only(lambda c: targets_clauses(c)[2]))],
+        raises=[],
+        note="the folders searched cover exactly the requested folder paths (no requested folder lost, nothing else added); "
+             "overlapping requests (a folder and one of its descendants) are listed twice by the listing: known finding "
+             "C18-overlapping-targets, excluded by the hypothesis of the third clause",
+    ))
     out.append(FnContract(
         target=f"{CLIENT}::SharePointFileMetadata.get_full_path",
         params=[("self", P_META)],
@@ -2028,6 +2090,28 @@ def caches_policy(repo, tier):
               any(ast.unparse(n.test) == t for n in ast.walk(fn) if isinstance(n, ast.If)) for (t, _b, _f) in checks))
         fns.append(dict(m.fn_info(f"{cls}.{meth}"), obligations=1))
     return {"obligations": obls, "functions": []}
+
+
+def known_findings(kf, violations, repo, tier):
+    """Recorded defects of C18: each witness is replayed natively; a finding that still reproduces prints KNOWN-FINDING.
+    The exclusion of C18-overlapping-targets is the hypothesis of the obligation it names, so it covers no violation."""
+    import json
+    import os
+    import subprocess
+    root = os.path.dirname(os.path.dirname(os.path.abspath(__file__)))
+    out = []
+    for f in kf:
+        req = {"property": "C18", "obligation": f["obligation"], "known_finding": f["id"], "witness": f.get("witness"), "repo": repo}
+        try:
+            p = subprocess.run(["/venv/bin/python", os.path.join(root, "replay", "run.py")], input=json.dumps(req), capture_output=True,
+                               text=True, timeout=300, cwd=root, env=dict(os.environ, VERIF_REPO=repo))
+            lines = [l for l in p.stdout.splitlines() if l.startswith("{")]
+            res = json.loads(lines[-1]) if lines else {}
+        except Exception as e:  # noqa
+            res = {"reproduced": False, "note": f"replay failed: {e}"}
+        out.append({"finding": f["id"], "still_fails": bool(res.get("reproduced")), "line": f"{f['id']}: {f['what']}", "covers": [],
+                    "exclusion": f.get("exclusion"), "witness_replay": str(res.get("observed") or res.get("note") or "")[:300]})
+    return out
 
 
 EXTRA = [caches_policy]
